@@ -192,7 +192,30 @@ func s1Probes(rng *vkit.Rng, lat []float64, is ...s1.Interval) []float64 {
 	return out
 }
 
+// regression inputs (run first on every tier): known finding, s1.Interval.Expanded returns a
+// single point when Length + 2*margin + 2*dblEpsilon evaluates to one ulp below 2*pi
+func s1ExpandedRegression(c *vkit.Collector) {
+	for _, w := range [][3]uint64{
+		{0xc008000000000000, 0x3ff0000000000001, 0x3ff243f6a8885a2e},
+		{0x3ff921fb54442d18, 0x3fe29eb9ce835144, 0x3fdfa53cda0508eb},
+	} {
+		a := s1.Interval{Lo: math.Float64frombits(w[0]), Hi: math.Float64frombits(w[1])}
+		mg := math.Float64frombits(w[2])
+		ex := a.Expanded(mg)
+		c.Check(fmt.Sprintf("s1.Expanded(regression) %x/%x %x", w[0], w[1], w[2]), vkit.App("s1_Interval_eqbits", vkit.App("s1_Interval_Expanded", s1Term(a), vkit.F(mg)), s1Term(ex)))
+		for _, p := range []float64{a.Lo, a.Hi} {
+			if s1Mem(a, p) && !s1Mem(ex, p) {
+				c.Violate("s1.Expanded.guard-one-ulp-below-2pi", "Expanded by a non-negative margin loses a point (result is a single point instead of the full circle)",
+					map[string]interface{}{"type": "s1", "a": []float64{a.Lo, a.Hi}, "margin": mg, "p": p, "expanded": []float64{ex.Lo, ex.Hi},
+						"bits": []string{s1Bits(a), fmt.Sprintf("%x", w[2]), fmt.Sprintf("%x", math.Float64bits(p))},
+						"go": "s1.Interval{Lo: -3, Hi: math.Float64frombits(0x3ff0000000000001)}.Expanded(math.Float64frombits(0x3ff243f6a8885a2e)).Contains(-3) == false"})
+			}
+		}
+	}
+}
+
 func runC19s1(c *vkit.Collector, rng *vkit.Rng, budget int) {
+	s1ExpandedRegression(c)
 	lat := s1Lattice(rng)
 	n := 110 * budget
 	for k := 0; k < n; k++ {
@@ -305,8 +328,17 @@ func runC19s1(c *vkit.Collector, rng *vkit.Rng, budget int) {
 					c.Violate("s1.Project", "Project lands outside a non-empty interval", rep(p))
 				}
 			}
-			for _, mg := range margins {
-				if mg < 0 {
+			// margins where the 2*dblEpsilon guard of Expanded is about to switch to "full":
+			// the endpoints then wrap almost onto each other (attack on H_S1EXPAND)
+			crit := []float64{}
+			if L := a.Length(); L >= 0 {
+				m0 := (2*math.Pi - L) / 2
+				for _, d := range []float64{0, 1e-16, 2.3e-16, 4.5e-16, 9e-16, 2e-15} {
+					crit = append(crit, m0-d, vkit.Ulps(m0-d, 1), vkit.Ulps(m0-d, -1))
+				}
+			}
+			for _, mg := range append(append([]float64{}, margins...), crit...) {
+				if mg < 0 || math.IsNaN(mg) {
 					continue
 				}
 				ex := a.Expanded(mg)
@@ -314,7 +346,13 @@ func runC19s1(c *vkit.Collector, rng *vkit.Rng, budget int) {
 					c.Violate("s1.Expanded.valid", "Expanded result invalid", rep(mg))
 				}
 				if ma && !s1Mem(ex, p) {
-					c.Violate("s1.Expanded", "Expanded by a non-negative margin loses a point", map[string]interface{}{"type": "s1", "a": []float64{a.Lo, a.Hi}, "margin": mg, "p": p, "bits": []string{s1Bits(a), fmt.Sprintf("%x", math.Float64bits(mg)), fmt.Sprintf("%x", math.Float64bits(p))}})
+					// the same float expression as the guard in Expanded; pred(pred(2pi)) = two ulps below
+					gv := a.Length() + 2*mg + 2*2.220446049e-16
+					kind := "s1.Expanded"
+					if gv > vkit.Ulps(2*math.Pi, -2) {
+						kind = "s1.Expanded.guard-one-ulp-below-2pi"
+					}
+					c.Violate(kind, "Expanded by a non-negative margin loses a point", map[string]interface{}{"type": "s1", "a": []float64{a.Lo, a.Hi}, "margin": mg, "p": p, "bits": []string{s1Bits(a), fmt.Sprintf("%x", math.Float64bits(mg)), fmt.Sprintf("%x", math.Float64bits(p))}})
 				}
 			}
 			if tProbe[pi] {
